@@ -178,3 +178,80 @@ theorem pjoin_empty_plain (cs : List Name) (hne : cs ≠ []) (h : Plain cs) :
   rw [this, clean_plain cs hne h]
 
 end Stfs
+
+namespace Stfs
+
+/-- components that are plain or empty (an empty one is what `//` produces) -/
+def Semi (cs : List Name) : Prop := ∀ c ∈ cs, c = [] ∨ PlainComp c
+
+theorem foldl_cleanStep_semi (r : Bool) (cs : List Name) (st : List Name) (h : Semi cs) :
+    cs.foldl (cleanStep r) st = (cs.filter (fun c => c != [])).reverse ++ st := by
+  induction cs generalizing st with
+  | nil => rfl
+  | cons c rest ih =>
+    have hrest : Semi rest := fun c hc => h c (List.mem_cons_of_mem _ hc)
+    rcases h c List.mem_cons_self with rfl | hp
+    · have e : cleanStep r st [] = st := by simp [cleanStep]
+      simp only [List.foldl_cons, e, ih st hrest]
+      simp
+    · obtain ⟨h1, h2, h3, _⟩ := hp
+      have e : cleanStep r st c = c :: st := by
+        unfold cleanStep
+        have a : (c == []) = false := by simpa using h1
+        have b : (c == [dotc]) = false := by simpa using h2
+        have d : (c == dotdot) = false := by simpa using h3
+        simp [a, b, d]
+      have ne : (c != []) = true := by simp [bne, h1]
+      simp only [List.foldl_cons, e, ih _ hrest, List.filter_cons, ne, if_true]
+      simp [List.reverse_cons, List.append_assoc]
+
+theorem semi_noslash (cs : List Name) (h : Semi cs) : ∀ c ∈ cs, slash ∉ c := by
+  intro c hc
+  rcases h c hc with rfl | hp
+  · simp
+  · exact hp.2.2.2
+
+/-- `path.Clean` on an absolute path whose components are plain or empty: the empty ones go -/
+theorem clean_abs_semi (cs : List Name) (hne : cs ≠ []) (h : Semi cs) :
+    clean (slash :: joinWith slash cs) = slash :: joinWith slash (cs.filter (fun c => c != [])) := by
+  unfold clean
+  have hs : splitOn slash (slash :: joinWith slash cs) = [] :: cs := by
+    have := splitOn_joinWith slash ([] :: cs) (by simp) (by
+      intro c hc
+      cases hc with
+      | head => simp
+      | tail _ hc => exact semi_noslash cs h c hc)
+    cases cs with
+    | nil => exact absurd rfl hne
+    | cons x xs => simpa [joinWith] using this
+  have e : cleanStep true [] [] = [] := by simp [cleanStep]
+  have r : ((slash :: joinWith slash cs).head? == some slash) = true := by simp
+  have ne : ((slash :: joinWith slash cs) == []) = false := by simp
+  simp only [hs, List.foldl_cons, ne, Bool.false_eq_true, if_false, r, e, if_true]
+  rw [foldl_cleanStep_semi true cs [] h]
+  simp
+
+theorem joinWith_append (sep : Nat) (a b : List Name) (ha : a ≠ []) (hb : b ≠ []) :
+    joinWith sep (a ++ b) = joinWith sep a ++ sep :: joinWith sep b := by
+  induction a with
+  | nil => exact absurd rfl ha
+  | cons x xs ih =>
+    cases xs with
+    | nil =>
+      cases b with
+      | nil => exact absurd rfl hb
+      | cons y ys => simp [joinWith]
+    | cons y ys =>
+      have := ih (by simp)
+      simp only [List.cons_append] at this ⊢
+      simp only [joinWith, this, List.append_assoc, List.cons_append]
+
+theorem hasPrefix_append_self (s t : Name) : hasPrefix (s ++ t) s = true := by
+  induction s with
+  | nil => cases t <;> rfl
+  | cons a as ih => simp [hasPrefix, ih]
+
+theorem trimPrefix_append (s t : Name) : trimPrefix (s ++ t) s = t := by
+  simp [trimPrefix, hasPrefix_append_self]
+
+end Stfs
